@@ -197,6 +197,8 @@ def gen_config(cs, tier='quick', force=None):
     c['program'] = force.get('program') or ['hip', 'hip', 'hip', 'hip', 'hipold', 'geo'][cs.choose(6, 'program')]
     hip = c['program'] != 'geo'
     c['base'] = cs.choose(2, 'base')
+    if force.get('base') is not None:
+        c['base'] = force['base']
     table = {'hip': WL.HIP_INPUTS, 'hipold': WL.HIPOLD_INPUTS, 'geo': WL.GEO_INPUTS}[c['program']]
     outs = {'hip': WL.HIP_OUTPUTS, 'hipold': WL.HIPOLD_OUTPUTS, 'geo': WL.GEO_OUTPUTS}[c['program']]
     c['iter_fail'] = cs.choose(3, 'iter_fail') == 2
@@ -218,8 +220,17 @@ def gen_config(cs, tier='quick', force=None):
         else:
             d = spec['ok'][cs.choose(len(spec['ok']), 'dist')]
             edge = False
-        inputs.append({'name': name, 'dist': d[0], 'args': list(d[1:]), 'edge': edge,
-                       'discrete': bool(spec.get('discrete'))})
+        inp_ = {'name': name, 'dist': d[0], 'args': list(d[1:]), 'edge': edge, 'discrete': bool(spec.get('discrete'))}
+        # the documented "#" placeholder: "use the value from the base input file as the mean / mode"
+        if not edge and d[0] in ('normal', 'triangular') and cs.choose(4, 'hash') == 3:
+            bv = _base_value(base_text(c), name)
+            k_ = 0 if d[0] == 'normal' else 1
+            if bv is not None and (d[0] == 'normal' or d[1] < bv < d[3]):
+                inp_['args'][k_] = bv
+                inp_['hash_arg'] = k_
+        inputs.append(inp_)
+    if force.get('inputs'):
+        inputs = [dict(x) for x in force['inputs']]
     c['inputs'] = inputs
     nout = 1 + cs.choose(5, 'nout')
     on = list(outs)
@@ -285,10 +296,25 @@ def gen_config(cs, tier='quick', force=None):
     return c
 
 
+def _base_value(text, name):
+    """value of the base-input line whose parameter name is exactly `name`"""
+    for ln in text.split('\n'):
+        parts = ln.split(',')
+        if len(parts) >= 2 and parts[0].strip() == name:
+            try:
+                return float(parts[1].split('--')[0].strip())
+            except ValueError:
+                return None
+    return None
+
+
 def settings_text(c):
     lines = []
     for i in c['inputs']:
-        lines.append('INPUT, ' + i['name'] + ', ' + i['dist'] + ', ' + ', '.join(repr(a) if isinstance(a, float) else str(a) for a in i['args']))
+        args = [repr(a) if isinstance(a, float) else str(a) for a in i['args']]
+        if i.get('hash_arg') is not None:
+            args[i['hash_arg']] = '#'
+        lines.append('INPUT, ' + i['name'] + ', ' + i['dist'] + ', ' + ', '.join(args))
     for o in c['outputs']:
         lines.append('OUTPUT, ' + o)
     lines.append(f"ITERATIONS, {c['iterations']}")
@@ -741,6 +767,13 @@ def analyse(rec, c, k, out_path, inp_path, payload, driver=None):
                 continue
             if not in_support(i['dist'], i['args'], x):
                 V('C13', 'out_of_support', i['dist'], f"line {lineno}: {i['name']}={x!r} outside {i['dist']}{tuple(i['args'])}")
+            elif i['dist'] in ('normal', 'lognormal') and i['args'][1] > 0 and (i['dist'] == 'normal' or x > 0):
+                # a single draw more than 8 standard deviations out (p ~ 1e-15) is not a draw from the requested distribution
+                z = ((x if i['dist'] == 'normal' else math.log(x)) - i['args'][0]) / i['args'][1]
+                if abs(z) > 8:
+                    V('C13', 'wrong_distribution', i['dist'] + '_tail',
+                      f"line {lineno}: {i['name']}={x!r} is {z:.1f} standard deviations from the requested {i['dist']}{tuple(i['args'])}"
+                      + (' (mean given as "#": value of the base input)' if i.get('hash_arg') is not None else ''))
         if cont:
             vecs[tuple(pairs[j][1] for j in cont)] += 1
     dups = {v: n for v, n in vecs.items() if n > 1}
